@@ -200,8 +200,10 @@ def finish(run: Run, level: str, explanation: str, assumptions: list[str], check
             json.dump([dict(asdict(f), key=f.key) for f in new], fh, indent=1)
             fh.write("\n")
         print(f"VIOLATION property={prop} replay={replay}")
-        for f in new:
+        for f in new[:40]:
             print("  " + f.text() + f"  [key {f.key}]")
+        if len(new) > 40:
+            print(f"  ... {len(new) - 40} more finding(s) in {replay}")
         return 1
     else:
         stale_replay = os.path.join(ev_dir, f"{prop}.violations.json")
